@@ -8,26 +8,29 @@ sys.path[:0] = ["/verif", "/repo"]
 props = [json.loads(l) for l in open("/verif/properties.jsonl")]
 notes = {
     "C01": "batch vs a family of append schedules (incl. gap-filled streams, configuration variants and a Hexital of chained members), all leaves term-compared",
-    "C02": "snapshots after every append and batch-over-prefix vs final state; chained Hexital members in both registration orders",
+    "C02": "snapshots after every append vs final state and vs a batch over the full list, batch-over-prefix vs batch-over-all; chained Hexital members in both registration orders",
     "C03": "library collapse vs independent right-closed resampler over symbolic integer timestamps (incl. timeframes that do not divide a day)",
-    "C04": "library readings vs textbook definitions incl. late-starting symbolic inputs, dotted names and a period change + recalculate",
-    "C05": "library readings vs definitions (std-dev through squares), also under dotted names",
-    "C06": "library readings vs definitions; ADX compositionally under mul/div abstraction with exact refinement",
+    "C04": "library readings vs textbook definitions incl. late-starting symbolic inputs, dotted names, a period change + recalculate, and over live-fed T2 buckets",
+    "C05": "library readings vs definitions (std-dev through squares), also under dotted names and over live-fed T2 buckets",
+    "C06": "library readings vs definitions (also over live-fed T2 buckets); ADX compositionally under mul/div abstraction with exact refinement",
     "C07": "executed-line count of the real append at several history lengths on every feasible path, bounded by the maximum over all paths at n0 (trending / flat history, one or two candles per append, T1 / fill / HA configurations)",
-    "C08": "Hexital member vs standalone twin (object/dict/settings forms, timeframes, HA, fill, lifespan, fill-only over a gapped stream); member names",
+    "C08": "Hexital member vs standalone twin (object/dict/settings forms, timeframes, HA, fill, lifespan, fill-only over a gapped stream, member timeframe nested on a Hexital timeframe, lower-case timeframe spelling, caller-edited dicts); member names",
     "C09": "every feasible path incl. zero-denominator and negative-sqrt forks; eps rounding; configuration variants; thorough: floating-point error-model lemma for the sqrt domain",
     "C10": "one assertion per named relation under the eps rounding model (+monotone/odd/fixed-point refinement); stored == round(definition) within k roundings; round_value variants",
-    "C11": "HA candles, tags, saved raw values and readings vs the recurrence under schedules, with T2 and under a lifespan",
+    "C11": "HA candles, tags, saved raw values and readings vs the recurrence under schedules, with T2 (indicator-, Hexital- and member-level, also starting on a bucket edge) and under a lifespan",
     "C12": "library gap fill vs reference fill over symbolic timestamps (gaps longer than a day, with a rolling lifespan)",
-    "C13": "B alone vs B next to A under both orders and purge/recalculate/remove/add of A and a later append; name-relation and shared-timeframe pairs",
+    "C13": "B alone vs B next to A under both orders and purge/recalculate/remove/add of A and a later append; name-relation and shared-timeframe pairs (timeframe spelled in upper / lower case and as TimeFrame member)",
     "C14": "all operation sequences up to the tier's length from the calculated and the never-calculated state, state compared after every op and with batch at the end",
     "C15": "retained window (complete buckets) vs definition over symbolic timestamps; retained readings vs untrimmed twin incl. a density-drop stream with one retained predecessor",
     "C16": "f(c,i)==f(c[:i+1])==f(c,i-N) over symbolic values, missing flags, index and length; wrappers live vs batch (patterns on a timeframe)",
-    "C17": "library predicates vs reference predicates; pattern witnesses/counter-witnesses with 2x margins; shift/scale invariance with symbolic factor",
-    "C18": "process time zone as a symbolic variable (all quarter-hour offsets; DST rule zone with CPython's mktime algorithm), fill off/on",
-    "C19": "read-only calls bracketed by deep term-level snapshots; 9 input encodings x 3 hosts (prices may be 0)",
+    "C17": "library predicates vs reference predicates; candle geometry also after a merge; pattern witnesses/counter-witnesses with 2x margins; shift/scale invariance with symbolic factor",
+    "C18": "process time zone as a symbolic variable (all quarter-hour offsets; DST rule zone with CPython's mktime algorithm), fill off/on; datetime and ISO-string timestamps",
+    "C19": "read-only calls bracketed by deep term-level snapshots; 9 input encodings x 3 hosts (prices may be 0); every Hexital member's candles vs a stand-alone manager of its timeframe",
     "C20": "every access path vs direct inspection over symbolic values and every index, also at every step of live histories and with a coarser Hexital timeframe",
 }
+import glob
+_metas = [json.load(open(f)) for f in glob.glob("/verif/seeded/*/meta.json")]
+nseed, ndet = len(_metas), sum(1 for x in _metas if x.get("detected"))
 nfix = int(subprocess.run(["git", "-C", "/repo", "log", "--oneline", "80fc51a..HEAD"], capture_output=True, text=True).stdout.count("\n"))
 checks = []
 for p in props:
@@ -49,7 +52,7 @@ m = {"version": 1, "setup_cmd": "./setup.sh",
      "engines": [{"name": "symx", "path": "/verif/symx", "serves_properties": [p["id"] for p in props],
                   "kind_free_text": "shadow-value symbolic executor for Python (float/bool/datetime subclasses carrying z3 terms, DFS over branch decisions by re-execution) with z3 tiers (incremental -> fresh nlsat), abstraction refinement for products/quotients and rounding, floating-point error model, concrete replay twin"}],
      "checks": checks,
-     "notes": f"All 20 properties are decided with the same technique. {nfix} genuine defects found by these checks on the pinned tree were repaired by minimal 'fix:' commits in /repo (listed as fixed: entries in /verif/known_findings.json); no open known finding remains. 60 seeded changes from independent sub-agents are kept under /verif/seeded (59 detected). Exit codes: 0 ok, 1 reproduced VIOLATION, 2 harness error.",
+     "notes": f"All 20 properties are decided with the same technique. {nfix} genuine defects found by these checks on the pinned tree were repaired by minimal 'fix:' commits in /repo (listed as fixed: entries in /verif/known_findings.json); no open known finding remains. {nseed} seeded changes from independent sub-agents are kept under /verif/seeded ({ndet} detected by the quick tier; the remaining float-only one by the thorough tier of C09). Exit codes: 0 ok, 1 reproduced VIOLATION, 2 harness error.",
      "not_applicable": []}
 json.dump(m, open("/verif/MANIFEST.json", "w"), indent=1)
 import jsonschema
